@@ -78,6 +78,19 @@ def by_position(res):
     return out
 
 
+def _shared_det():
+    det = make_grid({"nx": 4, "ny": 3, "sx": 1, "sy": 2, "ox": 0, "oy": 5})
+    return update_metadata(det, noise_sd=0.1, **OPT)
+
+
+def job_no_radial_fresh():
+    """in a fresh interpreter: the no-radial-component Mie hologram, nothing else ever calculated"""
+    import hashlib
+    name, scat, theory = theories()[0]
+    r = calc_holo(_shared_det(), scat, **opts_for("Mie/no_radial", Mie(False, True)))
+    return hashlib.sha1(np.ascontiguousarray(r.values).tobytes()).hexdigest()
+
+
 def run(ctx):
     quick = ctx.tier == "quick"
     rng = random.Random(ctx.seed)
@@ -226,6 +239,32 @@ def run(ctx):
                 except Exception as e:
                     ctx.violation("subset/exception", {"shape": [nx, ny], "k": k, "seed": seed,
                                                        "theory": name, "exc": repr(e)})
+    # a subset of an image with a further axis (two colour channels) remembers that axis too
+    for (nx, ny, k, seed) in ((3, 4, 5, 0), (4, 4, 16, 7), (2, 5, 1, 3)):
+        ctx.case(("subset_multichannel", nx, ny, k, seed), nontrivial=True)
+        try:
+            img = detector_grid((nx, ny), (0.1, 0.2), extra_dims={"illumination": ["red", "green"]})
+            img = img.copy()
+            img.values[...] = nprng.normal(size=img.shape)
+            img = update_metadata(img, noise_sd=0.07, medium_index=1.33, illum_wavelen={"red": 0.66, "green": 0.52},
+                                  illum_polarization=(1, 0))
+            keep = fp.fingerprint(img)
+            sub, sel = make_subset_data(img, pixels=k, seed=seed, return_selection=True)
+            sub2, sel2 = make_subset_data(img, pixels=k, seed=seed, return_selection=True)
+            od = sub.attrs.get("original_dims", {})
+            orig_ok = (set(od) == set(img.dims) and all(np.array_equal(od[d_], img[d_].values) for d_ in img.dims))
+            stacked = img.stack(flat=("x", "y", "z"))
+            values_kept = all(np.array_equal(sub.sel(illumination=c).values.ravel(), stacked.sel(illumination=c).values.ravel()[np.asarray(sel)])
+                              for c in ("red", "green"))
+            traces.append([{
+                "event": "Subset", "nx": nx, "ny": ny, "k": k, "seed": seed, "sel": [int(v) for v in sel],
+                "xi": [int(v) for v in np.round(sub.x.values / 0.1).astype(int)],
+                "yj": [int(v) for v in np.round(sub.y.values / 0.2).astype(int)],
+                "values_kept": bool(values_kept), "attrs_kept": bool(fp.same(sub.attrs.get("illum_wavelen"), img.attrs.get("illum_wavelen"))),
+                "orig_dims_ok": bool(orig_ok), "same_seed_same_selection": bool(np.array_equal(sel, sel2) and fp.same(sub, sub2)),
+                "input_untouched": bool(fp.fingerprint(img) == keep), "mb_commute": -20000, "theory": "none (two-colour image)"}])
+        except Exception as e:
+            ctx.violation("subset/exception", {"shape": [nx, ny], "k": k, "seed": seed, "theory": "two-colour image", "exc": repr(e)[:300]})
     verdicts = tracemod.validate(ctx, "DetectorViewsTrace", traces)
     for tr, (acc, line, clauses) in zip(traces, verdicts):
         if acc:
@@ -242,10 +281,14 @@ def run(ctx):
     keep = fp.fingerprint(det)
     ids = (id(det.attrs), id(det.values))
     first = {}
-    order = list(range(len(th))) * 2
+    # the solver options of one theory class are independent calculations too: Mie without the radial
+    # component before and after the default Mie
+    th_seq = list(th) + [("Mie/no_radial", th[0][1], Mie(False, True))]
+    order = list(range(len(th_seq))) * 2
     rng.shuffle(order)
+    order = [len(th_seq) - 1, 0, len(th_seq) - 1] + order
     for n, i in enumerate(order):
-        name, scat, theory = th[i]
+        name, scat, theory = th_seq[i]
         kw = opts_for(name, theory)
         f = [calc_holo, calc_field, calc_intensity][n % 3]
         r = f(det, scat, **kw)
@@ -285,6 +328,17 @@ def run(ctx):
                                                                               "defect": float(np.max(np.abs(a - b)))})
                 break
             ctx.trace_ok()
+    # the same no-radial calculation in this interpreter (after everything above) and in a fresh one
+    import hashlib, isolate
+    ctx.case(("fresh_process", "Mie/no_radial"), nontrivial=True)
+    rfresh = isolate.run_jobs([("c07:job_no_radial_fresh", {})])[0]
+    if rfresh is None or rfresh["outcome"] != "returned":
+        raise harness.MachineryError("fresh-process baseline failed: %r" % (rfresh,))
+    rhere = calc_holo(_shared_det(), theories()[0][1], **opts_for("Mie/no_radial", Mie(False, True)))
+    if hashlib.sha1(np.ascontiguousarray(rhere.values).tobytes()).hexdigest() != rfresh["result"]:
+        ctx.violation("shared_detector/result_depends_on_process_history", {"theory": "Mie(False, True)"})
+    else:
+        ctx.trace_ok()
     if not quick:
         # the repository's own test-suite under the recorder: Frame and Deterministic on every
         # public call those tests make (spec/Session.tla)
